@@ -383,7 +383,27 @@ Fixpoint any_ltb (a b : list nat) : bool :=          (* the loop of the pinned g
   | _, _ => false
   end.
 
-(* gene_cmp of the repaired cse(): lexicographic on (opcode, parameter | arguments) *)
+(* std::memcmp(&a.par, &b.par, sizeof(double)) < 0: the 8 bytes of the object
+   representation, lowest address (least significant byte, x86-64) first *)
+Definition par_bytes (p : f64) : list Z :=
+  let b := F64.to_bits p in map (fun k => Z.land (Z.shiftr b (8 * k)) 255) [0; 1; 2; 3; 4; 5; 6; 7].
+Fixpoint bytes_ltb (a b : list Z) : bool :=
+  match a, b with
+  | x :: a', y :: b' => if x <? y then true else if y <? x then false else bytes_ltb a' b'
+  | _, _ => false
+  end.
+
+(* gene_cmp of the current cse() (after "fix: gene_cmp ... is not a strict weak ordering" and
+   "fix: i_mep::cse() merges the constants +0.0 and -0.0"): lexicographic on
+   (opcode, object representation of the parameter | arguments) *)
+Definition gene_cmp_mem (a b : gene) : bool :=
+  if negb (s_opcode (g_sym a) =? s_opcode (g_sym b)) then s_opcode (g_sym a) <? s_opcode (g_sym b)
+  else if is_terminal (g_sym a)
+       then (if s_parametric (g_sym a) then bytes_ltb (par_bytes (g_par a)) (par_bytes (g_par b)) else false)
+       else lex_ltb (g_args a) (g_args b).
+
+(* gene_cmp between those two fixes: the parameters compared with operator< (kept: the C03
+   development states the +0.0 / -0.0 finding about it) *)
 Definition gene_cmp (a b : gene) : bool :=
   if negb (s_opcode (g_sym a) =? s_opcode (g_sym b)) then s_opcode (g_sym a) <? s_opcode (g_sym b)
   else if is_terminal (g_sym a) then (if s_parametric (g_sym a) then F64.ltb (g_par a) (g_par b) else false)
@@ -438,7 +458,7 @@ Definition cse_genome (g : genome) : option genome :=
 End Cse.
 
 Definition cse (i : ind) : option ind :=
-  match cse_genome gene_cmp (i_gen i) with Some g => Some (with_gen i g) | None => None end.
+  match cse_genome gene_cmp_mem (i_gen i) with Some g => Some (with_gen i g) | None => None end.
 
 (* The pinned comparator [gene_cmp_old] is not a strict weak order (see
    Props/Refuted_C02.v), so std::map gives no guarantee at all for it; it is
